@@ -54,13 +54,19 @@ def r09_1(ctx):
                 continue
             n += 1
             short = hit.split("::")[-1]
-            allowed = ALLOWED_CONSUMER_ROLES.get(fname, set())
-            ok = any(a.endswith(short) for a in allowed)
-            if fname in ("end",) and short == "next":
-                ok = False
-            ctx.ob("R09.1", "consumer/%s calls %s" % (fname if "char_ref" not in f.path else "char_ref::" + fname, hit), ok,
-                   "wrapper role reviewed: counts or cannot see a line break" if ok else "raw consumption of input outside the reviewed wrappers: characters read here bypass the line counter",
-                   f.where(bb))
+            base = f
+            if f.d["kind"] == "Closure":
+                par = [g for g in mir.by_crate["html5ever"] if g.path == f.d.get("closure_of")]
+                base = par[0] if par else f
+            # (a helper extracted since the review consumes on behalf of the reviewed wrappers that call it)
+            for owner in sorted(mirq.reviewed_owners(ctx, base)) if mirq.is_new(ctx, base) else [fname]:
+                allowed = ALLOWED_CONSUMER_ROLES.get(owner, set())
+                ok = any(a.endswith(short) for a in allowed)
+                if owner in ("end",) and short == "next":
+                    ok = False
+                ctx.ob("R09.1", "consumer/%s calls %s" % (owner if "char_ref" not in f.path else "char_ref::" + owner, hit), ok,
+                       "wrapper role reviewed: counts or cannot see a line break" if ok else "raw consumption of input outside the reviewed wrappers: characters read here bypass the line counter",
+                       f.where(bb))
     ctx.floor("R09.1", "raw-consumption-sites", n, 8)
 
 
@@ -168,7 +174,7 @@ def r09_6(ctx):
     from lib import nf as nfmod
     import re
     items = {}
-    for it in ctx.ast.crates["html5ever"]:
+    for it in ctx.ast.walkable("html5ever"):
         if it["k"] == "Fn" and it["name"] in ("data_state_sse2_fast_path", "data_state_neon_fast_path") and it.get("body") is not None:
             items[it["name"]] = it
 
